@@ -30,7 +30,7 @@ Definition show_form_result (r : form_result) : list N :=
       if e =? E_INCOMPLETE then S_ " ERR incomplete"%string
       else if e =? E_USER then S_ " ERR user "%string ++ esc_text msg
       else S_ " ERR"%string
-  | FPanic => S_ " PANIC"%string
+  | FPanic k => if k =? 99 then S_ " UNMODELLED"%string else S_ " PANIC"%string
   | FNoFuel => S_ " NOFUEL"%string
   end.
 
@@ -104,11 +104,11 @@ Fixpoint sliced_text_all (nsl : nat) (fuel : nat) (m x : N) (t : text) (s : vm) 
               end
           | ROk Yield s' => (rev (FNoFuel :: acc), s', x')
           | RErr e msg s' => (rev (FErr e msg :: acc), s', x')
-          | RPanic _ => (rev (FPanic :: acc), s, x')
+          | RPanic k => (rev (FPanic k :: acc), s, x')
           | RNoFuel => (rev (FNoFuel :: acc), s, x')
           end
       | Err e => (rev (FErr e [] :: acc), s, x)
-      | Panic _ => (rev (FPanic :: acc), s, x)
+      | Panic k => (rev (FPanic k :: acc), s, x)
       | NoFuel => (rev (FNoFuel :: acc), s, x)
       end
   end.
